@@ -79,6 +79,9 @@ fn check_replace(variant: usize) -> Option<String> {
 
 // ---- the model tool: dump the dictionary, replace it with the unmodified dump (bounded, process level) ----
 const CLI_WORDS: &[(&str, &str)] = &[
+    // the column names of the dump themselves, as the FIRST records (a reader that "recognises" a header by its content
+    // eats them)
+    ("word", "comment"), ("weights", "word"),
     ("猫", "名詞"), ("火星", ""), ("a,b", "comma, in word and comment"), ("\"q\"", "quote \"x\""), (" a", " leading space"), ("b ", "trailing space "),
     ("a b", "inner  spaces"), ("tab\tx", "tab\there"), ("改\n行", "line\nbreak"), ("👨‍👩‍👧", "zwj"), ("x", " "), ("'", "'"),
     // a word / comment starting with the CSV comment character
